@@ -144,9 +144,12 @@ func checkC18(c *h.Check) {
 				damage("crlf-copy", strings.ReplaceAll(cur, "\n", "\r\n")),
 				damage("no-final-newline", strings.TrimSuffix(cur, "\n")),
 				damage("blank-tail", cur+"\n\n"),
-				damage("truncated-half", cur[:len(cur)/2]),
 				damage("trailer-comment", cur+"// trailing comment\n"),
 			)
+			// a truncated copy, as long as the generated build constraint survives the cut
+			if half := cur[:len(cur)/2]; strings.Contains(half, "//go:build !wireinject\n") {
+				ops = append(ops, damage("truncated-half", half))
+			}
 		}
 		ops = append(ops,
 			damage("noncompiling", consNew+"\npackage app\n\nfunc InitSvc( {\n"),
